@@ -135,6 +135,11 @@ func (r *rw) children(n ast.Node) {
 			if !f.IsNil() {
 				f.Set(reflect.ValueOf(r.stmt(f.Interface().(ast.Stmt))))
 			}
+		case ft == declType || ft == specType:
+			// a single declaration (the GenDecl of a DeclStmt: local `var wg sync.WaitGroup`)
+			if !f.IsNil() {
+				r.children(f.Interface().(ast.Node))
+			}
 		case ft.Kind() == reflect.Slice && ft.Elem() == exprType:
 			for j := 0; j < f.Len(); j++ {
 				e := f.Index(j)
